@@ -53,7 +53,7 @@ def run(ctx):
     pairs = [(a, b) for a in seqs for b in seqs]
     if not ctx.thorough:
         pairs = [p for i, p in enumerate(pairs) if len(p[0]) + len(p[1]) <= 4 or (i * 7 + ctx.seed) % 5 == 0]
-    for _ in range(4000 if ctx.thorough else 500):
+    for _ in range(20000 if ctx.thorough else 500):
         pairs.append(("".join(rng.choice(ALPHA) for _ in range(rng.randint(0, 12 if ctx.thorough else 8))),
                       "".join(rng.choice(ALPHA) for _ in range(rng.randint(0, 12 if ctx.thorough else 8)))))
     cfgs = [{"kind": "default", "gap": 1.0}] + [gen_cfg(rng) for _ in range(14 if ctx.thorough else 7)]
